@@ -451,7 +451,7 @@ static void w_apply(mc_op_t o)
         }
         if (T->bucket.rh.hash == NULL) { m_budget = -1; m_since = 0; }
     }
-    if (ab) MC_CHECK(PALL, 0, "unexpected %s inside the library: %s", ab == 2 ? "assertion failure" : "abort()", ab == 2 ? shim_assert_msg : "");
+    if (ab) MC_CHECK(PALL, 0, "unexpected %s inside the library: %s", ab == 3 ? "non-termination (a library call still running after 3 s)" : ab == 2 ? "assertion failure" : "abort()", ab == 2 ? shim_assert_msg : "");
     else if (mc_checking) {
         MC_CHECK(PALL, shim_errors == 0, "the table passed a pointer to free()/realloc() that it does not own");
         if (m_forced_settled && m_resized) MC_CHECK(PC19, T->bucket.rh.hash == NULL || OC(o) == O_RESIZE, "a rehash is pending although it was forced to completion and no new geometry was requested");
